@@ -1,7 +1,7 @@
 """C14 — device copier delivers exactly the requested bytes and signals completion once."""
 from vlib import Rng
 
-RULE = ("the block size changed between blocks (setBufferSize while the copy runs) and the copier started again after completion; family copier: QIODeviceCopier over scripted devices; random-access: contents 0..12 bytes exhaustively x block sizes 1..len+1 x "
+RULE = ("a buffering destination that flushes now and then and dies with data pending; the block size changed between blocks (setBufferSize while the copy runs) and the copier started again after completion; family copier: QIODeviceCopier over scripted devices; random-access: contents 0..12 bytes exhaustively x block sizes 1..len+1 x "
         "ranges (from,to) in [0,len+2]^2 and 'to end', run to completion; stop() at every turn; failing open/seek/read/write; "
         "sequential: every arrival partition of short contents, stop at every point; longer contents sampled; non-trivial = distinct case")
 ASSUMPTIONS = ["a range on a sequential source is outside the documented API (setRange: 'if src device is not sequential')",
@@ -103,6 +103,24 @@ def cases(tier, seed, ctx=None):
             ops2 = [START] + [TURN] * (n // max(bs0, 1) + 3) + [SETBS(rng.choice([bs0 * 8, 65536, 1])), START] + [TURN] * (min(n, 400) + 4)
             if n <= 400 or bs0 >= 16:
                 yield ("copier", [c, 0, bs0, frm, to, NOFAIL, ops2, [14, 9]], "ra-restarted")
+    # a destination that buffers what it accepts (a socket whose peer reads slowly): it flushes now and then, and at some point it
+    # dies with data still buffered (no notification, writes fail from then on): the copier reports the error and completes once
+    def FLUSH(n): return [6, n]
+    DIE = [7]
+    for n in (10, 64, 300):
+        c = content(n)
+        for bs in (1, 4, 16):
+            for _ in range(3 if tier == "quick" else 12):
+                ops = [START]
+                turns = n // bs + 3
+                die_at = rng.range(1, turns)
+                for t in range(turns + 3):
+                    if t == die_at and rng.chance(3, 4):
+                        ops.append(DIE)
+                    if rng.chance(1, 4):
+                        ops.append(FLUSH(rng.choice([1, bs, 5 * bs])))
+                    ops.append(TURN)
+                yield ("copier", [c, 0, bs, 0, -1, NOFAIL + [0, 1], ops, [14, 3]], "ra-buffering-destination")
     from vlib import all_partitions
     for n in range(0, (5 if tier == "quick" else 7)):
         c = content(n)
